@@ -21,7 +21,8 @@ Notation step := C10.Model.step.
    Part 2a: one timer callback while the output of direction `up` stays energised and no travel can be
    accounted (position unknown, or at the end stop of that direction)
    ==================================================================================================== *)
-Definition carry (up : bool) (d : dev) : Z := if up then up_time d else down_time d.
+Notation carry := carry_of.
+Notation end_of := end_stop.
 Definition wfk (k : kcfg) : Prop := k_tilt_type k = 0 -> k_tilt_ms k = 0.
 (* no travel left in direction `up` that the accounting could convert *)
 Definition NT (k : kcfg) (up : bool) (d : dev) : Prop :=
@@ -129,7 +130,6 @@ Proof.
   fld. destruct (u32 (t - start_time d) <? POWER_DETECT_US); fld; repeat split; reflexivity.
 Qed.
 
-Definition end_of (up : bool) : Z := if up then 100 else 10100.
 
 Lemma calibrate_d_facts k d full time up d' :
   wfk k -> NT k up d -> d' = calibrate_d o k d full time (end_of up) ->
@@ -300,3 +300,123 @@ Proof.
 Qed.
 
 End Callback.
+
+Section Callback2.
+Variable o : fpops.
+Hypothesis OK : fp_ok o.
+
+Lemma NT_transfer k up d d' :
+  NT k up d -> (pos d' = pos d /\ tilt d' = tilt d) \/ known (pos d') = false -> NT k up d'.
+Proof.
+  intros N [[P T]|U]; [|left; exact U]. unfold NT in *. rewrite P, T. exact N.
+Qed.
+
+(* what a sub-step hands on when the output stays energised *)
+Lemma sub_bundle k up d d' :
+  sub up d d' -> nofall up (outs d') -> only up d -> NT k up d ->
+  only up d' /\ NT k up d' /\ (start_time d <> 0 -> start_time d' = start_time d).
+Proof.
+  intros S NF O N.
+  split; [exact (sub_on up _ _ S NF O)|]. split; [exact (NT_transfer k up d d' N (sub_pos up _ _ S NF O))|].
+  exact (sub_start up _ _ S NF O).
+Qed.
+
+Lemma cb_head_frame k d d' :
+  d' = cb_head k d ->
+  outs d' = outs d /\ up_on d' = up_on d /\ down_on d' = down_on d /\ start_time d' = start_time d /\ detected d' = detected d /\
+  up_time d' = up_time d /\ down_time d' = down_time d /\ last_time d' = last_time d /\ last_comm d' = last_comm d /\ now d' = now d /\
+  clk d' = clk d /\ ((pos d' = pos d /\ tilt d' = tilt d) \/ known (pos d') = false).
+Proof.
+  intros ->. unfold cb_head.
+  destruct (autocal_enabled k d).
+  - destruct ((aot d =? 0) && (act d =? 0)); fld; repeat split; auto.
+  - destruct (negb (act d =? 0) || negb (aot d =? 0) || negb (ac_step d =? 0)); fld; repeat split; auto.
+Qed.
+
+Lemma calibrate_d_stamps k d full time p :
+  outs (calibrate_d o k d full time p) = outs d /\ last_time (calibrate_d o k d full time p) = last_time d /\
+  last_comm (calibrate_d o k d full time p) = last_comm d /\ now (calibrate_d o k d full time p) = now d.
+Proof.
+  unfold calibrate_d. destruct (negb (known (pos d)) && (0 <? full)); [|auto].
+  match goal with |- context[calibrate ?a ?b ?c ?e ?f ?g ?h] => destruct (calibrate a b c e f g h) end.
+  fld. auto.
+Qed.
+
+(* the accounting pipeline of one direction (Model: acc_add, acc_cm, acc_pre, acc_full, acc_post) *)
+Lemma cb_account_only up k d im t fo fc :
+  only up d ->
+  fst (fst (cb_account o k d im t fo fc)) =
+  acc_post o k (acc_pre k d up im (u32 (t - last_time d))) up im (if up then fo else fc).
+Proof.
+  intros [P Q]. unfold cb_account.
+  destruct up; unfold powered in P, Q; cbn [negb] in P, Q.
+  - rewrite P. reflexivity.
+  - rewrite Q, P. reflexivity.
+Qed.
+
+Lemma acc_add_facts up d el d3 :
+  only up d -> 0 <= el -> 0 <= carry up d -> carry up d + el < 4294967296 -> d3 = acc_add d up el ->
+  outs d3 = outs d /\ only up d3 /\ last_time d3 = last_time d /\ last_comm d3 = last_comm d /\
+  now d3 = now d /\ start_time d3 = start_time d /\ pos d3 = pos d /\ tilt d3 = tilt d /\ carry up d3 = carry up d + el.
+Proof.
+  intros [P Q] Hel Hc Hs ->. unfold acc_add, carry_of, only, powered in *.
+  destruct up; cbn [negb] in *; fld; repeat split; auto; apply u32_small; lia.
+Qed.
+
+Lemma acc_pre_sub up k d3 im p :
+  p = autocalibrate k (acc_cm k d3 up im) im -> sub up d3 (fst p).
+Proof.
+  intros ->. eapply sub_trans; [|apply sub_autocalibrate].
+  unfold acc_cm. destruct (0 <? carry_of up d3); [apply sub_check_motor|apply sub_refl].
+Qed.
+
+Lemma move_position_d_ext k d full up im : ext d (move_position_d o k d full up im).
+Proof.
+  unfold move_position_d.
+  set (m := move_position o (cfg_of k d) (pos d) (tilt d) (if up then up_time d else down_time d) full up). clearbody m.
+  destruct (m_off m).
+  - eapply ext_trans; [|apply (sub_ext up); apply sub_set_relay].
+    destruct (autocal_done _ && im); destruct up; exists []; reflexivity.
+  - destruct up; exists []; reflexivity.
+Qed.
+
+Lemma move_position_d_stamps k d full up im :
+  last_time (move_position_d o k d full up im) = last_time d /\ last_comm (move_position_d o k d full up im) = last_comm d /\
+  now (move_position_d o k d full up im) = now d.
+Proof.
+  unfold move_position_d.
+  set (m := move_position o (cfg_of k d) (pos d) (tilt d) (if up then up_time d else down_time d) full up). clearbody m.
+  destruct (m_off m).
+  - match goal with |- context[set_relay k ?x RELAY_OFF false false] => pose proof (sub_set_relay up k x RELAY_OFF false false) as S end.
+    rewrite (sub_lt up _ _ S), (sub_lc up _ _ S), (sub_now up _ _ S).
+    destruct (autocal_done _ && im); destruct up; fld; auto.
+  - destruct up; fld; auto.
+Qed.
+
+(* calibrate + move on a state d5 in which the output is energised and no travel can be accounted *)
+Lemma acc_post_facts up k d5 f im d' :
+  wfk k -> 0 <= carry up d5 < 4294967296 ->
+  d' = move_position_d o k (calibrate_d o k d5 f (carry up d5) (end_of up)) f up im ->
+  ext d5 d' /\
+  (nofall up (outs d') -> only up d5 -> NT k up d5 ->
+   only up d' /\ NT k up d' /\ carry up d' = carry up d5 /\ start_time d' = start_time d5) /\
+  last_time d' = last_time d5 /\ last_comm d' = last_comm d5 /\ now d' = now d5.
+Proof.
+  intros W Hc E'.
+  remember (calibrate_d o k d5 f (carry up d5) (end_of up)) as d6 eqn:E6.
+  destruct (calibrate_d_stamps k d5 f (carry up d5) (end_of up)) as (X56 & L6l & L6c & L6n). rewrite <- E6 in X56, L6l, L6c, L6n.
+  pose proof (move_position_d_ext k d6 f up im) as X67. rewrite <- E' in X67.
+  destruct (move_position_d_stamps k d6 f up im) as (L7l & L7c & L7n). rewrite <- E' in L7l, L7c, L7n.
+  split; [destruct X67 as [n L]; exists n; rewrite L, X56; reflexivity|].
+  split; [|repeat split; congruence].
+  intros NF O5 N5.
+  destruct (calibrate_d_facts o k d5 f (carry up d5) up d6 W N5 E6) as (F6 & N6 & _).
+  pose proof (same_frame_only up d5 d6 F6 O5) as O6.
+  destruct F6 as (_ & _ & _ & F6u & F6d & _ & _ & _ & _ & F6s).
+  assert (C6 : carry up d6 = carry up d5) by (unfold carry_of; destruct up; congruence).
+  destruct (move_position_d_facts o OK k d6 f up im d' W N6 O6 ltac:(lia) E') as (_ & M1 & M2 & M3 & _).
+  destruct (M1 NF) as (O7 & N7 & St7).
+  split; [exact O7|]. split; [exact N7|]. split; [rewrite <- C6; unfold carry_of; destruct up; congruence|congruence].
+Qed.
+
+End Callback2.
